@@ -93,9 +93,30 @@ func (x xl) boolean(e ast.Expr) (string, bool) {
 	return "", false
 }
 
+// onlyParams keeps the operands whose Lean name is one of the parameters of the definition being emitted
+// (`(waiting running : Int)`): an expression over anything else is unrecognised, not an unbound identifier.
+func onlyParams(vars map[string]string, params string) map[string]string {
+	names := map[string]bool{}
+	for _, group := range strings.Split(params, "(") {
+		if i := strings.Index(group, ":"); i >= 0 {
+			for _, n := range strings.Fields(group[:i]) {
+				names[n] = true
+			}
+		}
+	}
+	out := map[string]string{}
+	for k, v := range vars {
+		if names[v] {
+			out[k] = v
+		}
+	}
+	return out
+}
+
 // emitExpr emits `def name (params) : Bool := <translated e>`; pinned is used when e is nil or unrecognised.
 func emitExpr(g *fact.Gen, name, doc, params string, vars map[string]string, e ast.Expr, why string, pinned string) {
 	body, ok := "", false
+	vars = onlyParams(vars, params)
 	if e != nil {
 		body, ok = xl{g, vars, "par/work.go"}.boolean(e)
 		if !ok {
@@ -113,6 +134,7 @@ func emitExpr(g *fact.Gen, name, doc, params string, vars map[string]string, e a
 
 func emitNumExpr(g *fact.Gen, name, doc, params string, vars map[string]string, e ast.Expr, why string, pinned string) {
 	body, ok := "", false
+	vars = onlyParams(vars, params)
 	if e != nil {
 		body, ok = xl{g, vars, "par/work.go"}.num(e)
 		if !ok {
